@@ -629,7 +629,7 @@ def replay_notes(res: Result):
 def run(ctx: Ctx) -> Result:
     res = Result()
     if ctx.replay is not None:
-        cs = [ctx.replay['replay']]
+        cs = [ctx.replay['replay']] if not ctx.replay['replay'].get('async') else []
     else:
         cs = list(all_cases(ctx))
         replay_notes(res)
@@ -672,7 +672,85 @@ def run(ctx: Ctx) -> Result:
     else:
         res.notes.append('model driver unavailable: correspondence not run')
         res.disagreements.append({'correspondence': 'engine', 'error': 'model driver did not build'})
+    if ctx.replay is None or (isinstance(ctx.replay.get('replay'), dict) and ctx.replay['replay'].get('async')):
+        async_handler_cases(ctx, res)
     return res
+
+
+def async_handler_cases(ctx: Ctx, res: Result):
+    """
+    Oracle-only (the model covers the blocking handler): the real multithreading handler with actions held behind a
+    gate, so that every response arrives AFTER the forwarder pass that dispatched it; continued update() calls must
+    still turn every execution into exactly one action event and leave nothing in the handler's queue.
+    """
+    import threading
+    import time as _time
+    from bobocep.cep.action.handler import BoboActionHandlerMultithreading
+    from bobocep.cep.engine.decider.decider import BoboDecider
+    from bobocep.cep.engine.engine import BoboEngine
+    from bobocep.cep.engine.forwarder.forwarder import BoboForwarder
+    from bobocep.cep.engine.producer.producer import BoboProducer
+    from bobocep.cep.engine.receiver.receiver import BoboReceiver
+    from bobocep.cep.engine.receiver.validator import BoboValidatorAll
+    from bobocep.cep.phenom.pattern.builder import BoboPatternBuilder
+    from bobocep.cep.phenom.phenom import BoboPhenomenon
+
+    cfgs = [(0, 0, 0, 0, True), (1, 1, 1, 1, True), (2, 1, 0, 0, False), (0, 0, 0, 2, True), (0, 2, 1, 0, True)]
+    for cfg in cfgs:
+        for threads in ((1, 2, 4) if ctx.thorough else (1, 2)):
+            gate = threading.Event()
+            executed = []
+
+            class Gated(BoboAction):
+                def execute(self, event):
+                    gate.wait(10)
+                    executed.append(event.event_id)
+                    return True, len(executed)
+
+            pat = BoboPatternBuilder('p').followed_by(lambda e, h: e.data == 0).followed_by(lambda e, h: e.data == 1).generate()
+            phen = [BoboPhenomenon('ph', [pat], action=Gated('act'))]
+            ids, ts = GenId('e'), GenTs()
+            handler = BoboActionHandlerMultithreading(threads=threads)
+            rec = BoboReceiver(BoboValidatorAll(), ids, ts)
+            dec = BoboDecider(phen, ids, GenId('r'))
+            pro = BoboProducer(phen, ids, ts)
+            fwd = BoboForwarder(phen, handler, ids, ts)
+            eng = BoboEngine(rec, dec, pro, fwd, times_receiver=cfg[0], times_decider=cfg[1], times_producer=cfg[2],
+                             times_forwarder=cfg[3], early_stop=cfg[4])
+            actions = []
+
+            class Sub(BoboForwarderSubscriber):
+                def on_forwarder_update(self, event):
+                    actions.append(event)
+            fwd.subscribe(Sub())
+            stream = [0, 1, 0, 0, 1, 1]
+            want = 3 if True else 0
+            try:
+                for d in stream:
+                    rec.add_data(d)
+                    for _ in range(6):
+                        eng.update()
+                gate.set()                       # every response arrives after its dispatching pass
+                t0 = _time.time()
+                while len(executed) < want and _time.time() - t0 < 10:
+                    _time.sleep(0.005)
+                while handler.size() < want - len(actions) and _time.time() - t0 < 10:
+                    _time.sleep(0.005)
+                for _ in range(20):
+                    eng.update()
+            finally:
+                gate.set()
+                handler.close()
+                handler.join()
+            case = {'async': True, 'cfg': list(cfg), 'threads': threads, 'stream': stream}
+            res.add_case(case, nontrivial=True)
+            res.count('async_handler_cases')
+            if len(executed) != want:
+                res.violations.append(Violation('execute-count', f"multithreading handler: {len(executed)} executions for {want} completed runs", case))
+            elif len(actions) != want or handler.size() != 0:
+                res.violations.append(Violation(
+                    'stranded', f"multithreading handler ({threads} threads, times {cfg[:4]}): {want} executions but {len(actions)} action "
+                    f"events after 20 further engine.update() calls; {handler.size()} responses left in the handler queue", case))
 
 
 def search(ctx: Ctx) -> Result:
